@@ -99,7 +99,7 @@ def variants(fi, opts=None):
 
 
 def scan(model, qualname, opts=None, key=None):
-    ck = (id(model), qualname, key)
+    ck = (model.serial, qualname, key)
     if ck in _cache:
         return _cache[ck]
     if len(_cache) > 400:
